@@ -1079,7 +1079,9 @@ bool evaluate_impl(const void *context, const GraphView &graph,
   // per-cycle setup (next_scheduled accumulation / push-source pass). A
   // completed cycle resets the cursor to 0. (A cursor of 0 or the initial
   // invalid sentinel means "fresh".)
-  const bool resuming =
+  // A cycle that ended with an exception also leaves the cursor on the failing
+  // node (failed_node() needs it), but that cycle is over: only a pause resumes.
+  const bool resuming = !state.evaluation_failed &&
       state.evaluation_cursor != 0 && state.evaluation_cursor != invalid_cursor;
 
   state.evaluation_time = evaluation_time;
